@@ -490,8 +490,12 @@ class ServiceDiscoveryProtocol(SOMEIPDatagramProtocol):
 
     def reboot_detected(self, addr: _T_SOCKADDR) -> None:
         asyncio.get_event_loop().call_soon(self.subscriber.reboot_detected, addr)
+        # offers are handled via call_soon as well (see sd_message_received), so this
+        # keeps the order in which reboots and offers were received
         asyncio.get_event_loop().call_soon(self.discovery.reboot_detected, addr)
-        asyncio.get_event_loop().call_soon(self.announcer.reboot_detected, addr)
+        # subscribes are handled synchronously: the reboot must be applied before the
+        # Subscribe entries of the same message are, or they would be dropped again
+        self.announcer.reboot_detected(addr)
 
     def sd_message_received(
         self, sdhdr: someip.header.SOMEIPSDHeader, addr: _T_SOCKADDR, multicast: bool
@@ -800,14 +804,17 @@ class TimedStore(typing.Generic[KT]):
         callback(entry, address)
 
     def stop_all_for_address(self, address: _T_SOCKADDR) -> None:
-        for entry, (callback, handle) in self.store[address].items():
+        entries = list(self.store[address].items())
+        self.store[address].clear()
+        for entry, (callback, handle) in entries:
             if handle:
                 handle.cancel()
-            asyncio.get_event_loop().call_soon(callback, entry, address)
-        self.store[address].clear()
+            # report immediately, like stop(): entries received right after (e.g. in
+            # the message that revealed a reboot) must be reported after these
+            callback(entry, address)
 
     def stop_all(self) -> None:
-        for addr in self.store.keys():
+        for addr in list(self.store.keys()):
             self.stop_all_for_address(addr)
         self.store.clear()
 
